@@ -41,6 +41,8 @@ S1 == {5000}
 S1low == {80}
 In1 == {5000, 5002}
 NoPorts == {}
+DP53 == {53}
+Via2 == {"gw", "other"}
 MaxBlocked1 == Cardinality(blocked) <= 1
 MaxMaps1 == Cardinality(maps) <= 1
 MaxMaps2 == Cardinality(maps) <= 2
